@@ -322,7 +322,14 @@ func init() {
 			jobs = append(jobs, stepJobs(allEncodings(), "VStep")...)
 			// histories of depth 2: any instruction, then a request at the boundary after it
 			for kind := 0; kind <= 1; kind++ {
-				jobs = append(jobs, stepJobs(allEncodings(), "VC06After", kind)...)
+				for _, j := range stepJobs(allEncodings(), "VC06After", kind) {
+					// IM 0 / IM 2 followed by a mode-1 request: the harness's assumption
+					// "mode 1 at the boundary" cannot hold, the job would be vacuous
+					if kind == 1 && j.Params[0] == 2 && (j.Params[1] == 0x46 || j.Params[1] == 0x5e) {
+						continue
+					}
+					jobs = append(jobs, j)
+				}
 			}
 			mk("VC06ScenarioEI", "s")
 			mk("VC06ScenarioNested", "s")
